@@ -58,6 +58,52 @@ ROWS = [
       "C07": "also VIOLATION of C07 (translated rule no longer exact)"}),
     ("C01_D", "C01", "add_dirichlet sorts / de-duplicates the node list (np.unique) while per-node value arrays stay in the caller's order",
      "Dirichlet values given as arrays on a node list not sorted by id", {"C01": "VIOLATION with failing input (patch displacement ...: boundary nodes are listed in shuffled order by the harness)"}),
+    ("C03_C", "C03", "__Assemble_csr fills a preallocated buffer whose dtype is that of the first contributing group: imaginary parts of later complex groups are dropped (textual variant of C03_B)",
+     "two groups feeding one slot, the first real and a later one complex", {"C03": "VIOLATION with failing input (assembly slot=... differs from the scatter-add of the element arrays, complex history)"}),
+    ("C03_D", "C03", "the cached reduction map is kept in a per-simulation dict keyed on (dof_n, isMatrix, Ndof, element types and counts) and never invalidated",
+     "an existing simulation that has assembled is given a mesh of the same sizes with another connectivity (simu.mesh = renumbered mesh)",
+     {"C03": "missed at first (a replaced mesh always had the same connectivity or other sizes); histories now contain 'renumbered-mesh' (same sizes, nodes permuted) -> VIOLATION with failing input (assembly slot=... differs from the scatter-add) and csr-pattern disagreement with the model"}),
+    ("C04_C", "C04", "the orphan-node diagonal is built for the default problem type: in a multi-field simulation the damage rows of orphan nodes keep a zero diagonal",
+     "a mesh with a node attached to no element, PhaseField, solve of the damage problem",
+     {"C04": "missed at first (orphan node only in an Elastic simulation); orphan-node scenario added for Thermal and PhaseField -> VIOLATION with failing input (orphan-node sim=phasefield: damage non-finite)"}),
+    ("C04_D", "C04", "BoundaryCondition.Get_dofs_nodes returns the dof columns in canonical order whatever the order of the unknown names, while the values stay in the caller's order",
+     "a condition listing several unknowns in non-canonical order (e.g. ['y', 'x']) with distinct values",
+     {"C04": "detected at first only as a dof-lookup disagreement with the model, without failing input; strengthened: the second condition of every program lists the unknowns reversed, point loads are checked against an independent expected vector, "
+             "and the runner now repeats the harness in --search mode when only the correspondence breaks -> VIOLATION with failing input (Bc_vector_Neumann / constrained-value sim=elastic)"}),
+    ("C05_C", "C05", "hht branch of _Solver_Apply_Neumann: sign of the damping weight of the a_n history term flipped", "HHT on a linear simulation with damping, gamma != 2 beta, a_n != 0 (second step)",
+     {"C05": "VIOLATION with failing input (theorem hht_eom no longer checks; algo=hht equation-of-motion residual 2.4e2)"}),
+    ("C05_D", "C05", "parabolic corrector uses the predictor u_n + alpha dt v_n instead of u_n + (1 - alpha) dt v_n", "theta scheme with alpha != 1/2, second step (v_n != 0)",
+     {"C05": "VIOLATION with failing input (theorems parabolic_update_spec / parabolic_eval_eq_update no longer check; algo=parabolic update-relations)"}),
+    ("C06_C", "C06", "EULER_BERNOULLI5._Hermitian_dddN[5]: coefficient 480 r^3 -> 840 r^3", "SEG5 Euler-Bernoulli, pointwise evaluation of the third-derivative table (element means cancel the odd term)",
+     {"C06": "VIOLATION with failing input (theorem EULER_BERNOULLI5_check no longer checks; hermite=EULER_BERNOULLI5 table=dddN entry=5)"}),
+    ("C06_D", "C06", "TRI10._ddN[6]: the xi-xi and eta-eta second derivatives exchanged", "TRI10 second derivatives (Get_ddN_pg)",
+     {"C06": "VIOLATION with failing input (theorem TRI10_check no longer checks; elem=TRI10 table=ddN entry=6,0)"}),
+    ("C07_C", "C07", "Gauss_factory: QUAD9 merged into the QUAD8 branch: (QUAD9, rigi) gets the 2 x 2 rule", "QUAD9 stiffness rank",
+     {"C07": "VIOLATION with failing input (factory_pairs / factory_adequate / rigi_certified no longer check; QUAD9 conduction matrix has 2 zero-energy modes)"}),
+    ("C10_C", "C10", "Get_Pmat 3D, B block second row: p31*p33 became p31*p32", "3D anisotropic material with out-of-plane axes (rotation about y or a general axis)",
+     {"C10": "VIOLATION with failing input (theorem pmat3_checks no longer checks; frame indifference sim=static transform=rotation, TETRA10, transversely isotropic law)"}),
+    ("C10_D", "C10", "2D beams: the third local axis is forced to +z instead of cross(i, j)", "a 2D member whose (fibre, yAxis) pair is left-handed: default yAxis with the member drawn right to left, or a mirrored structure",
+     {"C10": "missed at first (the yAxis was always rotated with the member, rotations only); beam variants added: default yAxis at any inclination, reflections in 2D and 3D with pseudo-vector moments / rotations "
+             "-> VIOLATION with failing input (beam frame indifference ... rotation, default yAxis / reflection)"}),
+    ("C11_C", "C11", "plane-stress reduction for per-Gauss-point parameters (Ne, nPg) uses the compliance in material axes instead of the rotated one",
+     "2D plane stress, transversely isotropic / orthotropic, parameters given as (Ne, nPg) arrays, material axes not aligned with (x, y)",
+     {"C11": "missed at first (heterogeneous fields only for the isotropic law, per element); added: parameter fields per element and per Gauss point for the three laws with rotated axes, each entry against the scalar law "
+             "-> VIOLATION with failing input (heterogeneous law differs from the scalar law law=ortho planeStress=True field=per Gauss point)"}),
+    ("C11_D", "C11", "KelvinMandel_Matrix 3D table: entries [4][5] and [5][4] are sqrt(2) instead of 2", "3D stiffness given in Voigt notation with a non-zero C56 coupling (triclinic)",
+     {"C11": "detected at first as theorem kelvin3_table no longer checking, without failing input (Voigt input was orthotropic); every other repetition now uses a fully populated stiffness -> VIOLATION with failing input (anisotropic voigt-vs-mandel dim=3)"}),
+    ("C12_C", "C12", "_KeepsFeAxes: a >= 2 - ndim became a > -ndim (variant of C12_B)", "a reduction over the Gauss-point axis written with a negative index",
+     {"C12": "VIOLATION with failing input (theorem keepsAxis_iff no longer checks; reducer ... axis=(-1, -3): result is a FeArray but the (Ne, nPg) axes are not preserved)"}),
+    ("C12_D", "C12", "FeArray.broadcast tests the full-field shape before looking at the declared tensor rank", "tensor_ndim declared and nPg == n (TRI6 in 2D) or Ne == nPg == n",
+     {"C12": "missed at first (random sizes rarely coincide); deterministic size-collision cases added for tensor_ndim 1 and 2 -> VIOLATION with failing input (broadcast lead=e tensor_ndim=1 (sizes coincide))"}),
+    ("C14_C", "C14", "the mesh setter removes the simulation from the observers of the replaced meshes; Set_Iter can put such a mesh back without re-subscribing",
+     "solve / save on mesh 0, replace the mesh, save, Set_Iter(0), assemble, then move mesh 0",
+     {"C14": "missed at first (histories never went back to an earlier mesh); scenario added (read, Save_Iter, replace, read, Save_Iter, Set_Iter(0), read, move, read) for four motions -> VIOLATION with failing input (stale after moving a mesh restored by Set_Iter)"}),
+    ("C14_D", "C14", "PhaseField._Update: a change of the elastic law only invalidates the displacement system", "loaded state with the damage system already assembled, then material.E / v / planeStress changed",
+     {"C14": "missed at first (no phase-field parameter change on a loaded state); scenario added -> VIOLATION with failing input (stale phase-field damage system after a change of the elastic law)"}),
+    ("C16_C", "C16", "Result_strain_or_stress_field_e averages over the Gauss points before extracting the quantity (variant of C16_A)", "elements with several integration points and a non-uniform stress",
+     {"C16": "VIOLATION with failing input (sim=Elastic result=Svm / Evm)"}),
+    ("C16_D", "C16", "Elastic._Calc_Psi_Elas integrates with the mass quadrature instead of the stiffness one", "element types whose two rules differ (QUAD8, PRISM15)",
+     {"C16": "VIOLATION with failing input (sim=Elastic Wdef != 1/2 u'Ku)"}),
 ]
 
 only = set(sys.argv[1:])
